@@ -138,11 +138,12 @@ def pList {α : Type} (sep : String) (f : String → Option α) (s : String) : O
   if s == "-" then some [] else (s.splitOn sep).mapM f
 
 /-- a sequential token: a literal id, or `^n` = the n-th most recently issued token -/
-def pTok (next : Nat) (s : String) : Option Nat :=
-  if s.startsWith "^" then ((s.drop 1).toString.toNat?).bind (fun n => if u64 n then some (next - n) else none)
+def pTok (next mark : Nat) (s : String) : Option Nat :=
+  if s.startsWith "%" then ((s.drop 1).toString.toNat?).bind (fun n => if u64 n then some (mark - n) else none)
+  else if s.startsWith "^" then ((s.drop 1).toString.toNat?).bind (fun n => if u64 n then some (next - n) else none)
   else (s.toNat?).bind (fun n => if u64 n then some n else none)
 
-def parseOp (next : Nat) (line : String) : Option POp :=
+def parseOp (next mark : Nat) (line : String) : Option POp :=
   let f := line.splitOn " "
   if f.any (· == "") then none else
   match f with
@@ -158,14 +159,14 @@ def parseOp (next : Nat) (line : String) : Option POp :=
     let ps ← ps.mapM pPend
     pure (.op (.bindBatch ps) ps.length)
   | ["finish", p, t] => do
-    let p ← pPend p; let t ← pTok next t
+    let p ← pPend p; let t ← pTok next mark t
     pure (.op (.finish p t) 0)
   | ["cancel", p, t] => do
-    let p ← pPend p; let t ← pTok next t
+    let p ← pPend p; let t ← pTok next mark t
     pure (.op (.cancel p t) 0)
   | ["finishb", ps, ts, is] => do
     let ps ← pList ";" pPend ps
-    let ts ← pList "," (pTok next) ts
+    let ts ← pList "," (pTok next mark) ts
     let is ← pList "," (fun x => (x.toInt?).bind (fun n => if i64 n then some n else none)) is
     pure (.op (.finishBatch ps ts is) 0)
   | ["ack", u, ss, m] => do
@@ -240,8 +241,16 @@ def sameSet (a b : List (MKey × Entry)) : Bool :=
   a.length == b.length && a.all (fun ke => aget ke.1 b == some ke.2)
 
 /-- sequential op: the exactness predicates of the property on (previous dump, op, result, dump) -/
-def judgeOp (prev cur : St) (op : Op) (res : String) : String :=
+def judgeOp (stale : Nat) (prev cur : St) (op : Op) (res : String) : String :=
   let one (k : MKey) : MKey → Bool := fun x => x == k
+  -- a token issued before the last Reset owns nothing any more: an op carrying only such tokens
+  -- must not remove, commit or alter any delivery (all of them were created after the Reset)
+  let isStale (t : Nat) : Bool := t != 0 && t ≤ stale
+  let staleOp : Bool := match op with
+    | .finish _ t | .cancel _ t => isStale t
+    | .finishBatch _ ts _ => ts.any isStale && ts.all (fun t => t == 0 || isStale t)
+    | _ => false
+  if staleOp && !(sameSet prev.entries cur.entries && prev.count == cur.count) then "viol:stale-token-affected-new-delivery" else
   match op with
   | .ack k =>
     let before := aget k prev.entries
@@ -373,6 +382,8 @@ def linearize (startNext : Nat) (target : String) : Nat → Search → Bool
 structure DSt where
   model : St := {}
   prev : St := {}     -- the implementation's previous dumped state (config and clock from the ops)
+  mark : Nat := 0     -- model allocator value at the last Reset (resolves `%k` token references)
+  stale : Nat := 0    -- implementation allocator value at the last Reset: tokens ≤ stale predate it
 
 def splitImpl (impl : String) : Option (String × String) :=
   match impl.splitOn " || " with
@@ -380,7 +391,7 @@ def splitImpl (impl : String) : Option (String × String) :=
   | _ => none
 
 def stepDrv (st : DSt) (opLine impl : String) : DSt × String × String :=
-  match parseOp st.model.nextTok opLine with
+  match parseOp st.model.nextTok st.mark opLine with
   | none => (st, "bad-op", "ok")
   | some pop =>
     match pop with
@@ -392,14 +403,14 @@ def stepDrv (st : DSt) (opLine impl : String) : DSt × String × String :=
          | some im, "conc" :: rs =>
            let cur := implSt st.model im
            let inv := invariants cur im
-           if rs.length != ths.length then ({ model := cur, prev := cur }, "-", "viol:unparseable-output") else
+           if rs.length != ths.length then ({ st with model := cur, prev := cur }, "-", "viol:unparseable-output") else
            let threads := (ths.zip rs).map (fun (ops, r) => ({ ops := ops, res := r.splitOn "+" } : Th))
-           if threads.any (fun t => t.ops.length != t.res.length) then ({ model := cur, prev := cur }, "-", "viol:unparseable-output") else
+           if threads.any (fun t => t.ops.length != t.res.length) then ({ st with model := cur, prev := cur }, "-", "viol:unparseable-output") else
            let total := (ths.map List.length).sum
            -- start from the implementation's own previous dump, so an earlier divergence is not blamed on the window
            let ok := linearize st.prev.nextTok raw (total + 1) { st := st.prev, ths := threads }
            let v := if !ok then "viol:not-linearizable" else inv
-           ({ model := cur, prev := cur }, "-", v)
+           ({ st with model := cur, prev := cur }, "-", v)
          | _, _ => (st, "-", "viol:unparseable-output"))
     | .new shards maxp =>
       let m : St := { shards := if shards == 0 then 32 else shards, maxPer := maxp }
@@ -422,8 +433,12 @@ def stepDrv (st : DSt) (opLine impl : String) : DSt × String × String :=
           -- config and clock are inputs: take them from the model side
           let cur := implSt m' im
           let inv := invariants cur im
-          let v := if inv != "ok" then inv else judgeOp st.prev cur o res
-          ({ model := m', prev := cur }, mout, v)
+          let v := if inv != "ok" then inv else judgeOp st.stale st.prev cur o res
+          let isReset := match o with
+            | .reset => true
+            | _ => false
+          ({ model := m', prev := cur, mark := if isReset then st.model.nextTok else st.mark,
+             stale := if isReset then max st.stale st.prev.nextTok else st.stale }, mout, v)
 
 end C32Drv
 
